@@ -52,7 +52,7 @@ func init() {
 		Run:      runC07,
 		Required: func(string) []string { return []string{"multi-hunk", "single-hunk"} },
 		Assume:   []string{"hunk semantics = Appendix A of DESIGN.md", "merge hunks are judged directly against a@path / b@path and by leave-one-out on the real code"},
-		Budget:   budget(4*time.Minute, 40*time.Minute),
+		Budget:   budget(7*time.Minute, 40*time.Minute),
 	})
 }
 
